@@ -103,8 +103,8 @@ type PScn struct {
 
 // PItem: one rendered snippet of a custom body
 type PItem struct {
-	K    string `json:"k"`              // block | ref
-	S    string `json:"s"`              // block: the text; ref: a template with one @ref placeholder
+	K    string `json:"k"`              // block | ref | nest
+	S    string `json:"s"`              // block: the text; ref: a template with one @ref placeholder; nest: three texts separated by \x1e — the first and the third come out of one lazy snippet.Snippets sequence, the second is rendered through the Context while that sequence is being iterated (a helper emitted on demand)
 	Path string `json:"path,omitempty"` // ref: package path and exposed name
 	Name string `json:"name,omitempty"`
 }
@@ -505,6 +505,17 @@ func (g *recState) do(c gengo.Context, pkg, typ string, isAlias bool) error {
 				c.Render(snippet.Block(it.S))
 			case "ref":
 				c.Render(snippet.T(it.S, snippet.Arg("ref", snippet.PkgExpose(it.Path, it.Name))))
+			case "nest":
+				parts := strings.SplitN(it.S, "\x1e", 3)
+				c.Render(snippet.Snippets(func(yield func(snippet.Snippet) bool) {
+					if !yield(snippet.Block(parts[0])) {
+						return
+					}
+					c.Render(snippet.Block(parts[1]))
+					if !yield(snippet.Block(parts[2])) {
+						return
+					}
+				}))
 			}
 		}
 	}
